@@ -663,6 +663,19 @@ fn ladder(c: &Value) -> Value {
     }
 }
 
+fn parse(c: &Value) -> Value {
+    let d = dialect_by_name(c["dialect"].as_str().unwrap());
+    let sql = c["sql"].as_str().unwrap();
+    let r = std::panic::catch_unwind(std::panic::AssertUnwindSafe(|| {
+        parse_opts(d.as_ref(), sql, c["unescape"].as_bool().unwrap_or(true), c["trailing_commas"].as_bool().unwrap_or(false), c["limit"].as_u64().map(|x| x as usize))
+    }));
+    match r {
+        Ok(Ok(v)) => json!({"ok": v.iter().map(|s| s.to_string()).collect::<Vec<_>>(), "n": v.len()}),
+        Ok(Err(e)) => json!({"err": e.to_string()}),
+        Err(e) => json!({"panic": panic_msg(e)}),
+    }
+}
+
 fn lex(c: &Value) -> Value {
     let d = dialect_by_name(c["dialect"].as_str().unwrap());
     lex_outcome(d.as_ref(), c["sql"].as_str().unwrap(), c["unescape"].as_bool().unwrap_or(true))
@@ -676,6 +689,7 @@ fn main() {
         "make_word" => for_each_case(make_word),
         "recase" => for_each_case(recase),
         "lex" => for_each_case(lex),
+        "parse" => for_each_case(parse),
         "lexprop" => for_each_case(lexprop),
         "literal" => for_each_case(literal),
         "rawmode" => for_each_case(rawmode),
